@@ -40,9 +40,9 @@ def accept_check(text, scratch):
     open(sp, 'w', encoding='latin-1').write(text)
     outp = os.path.join(scratch, 'u.bin')
     try:
-        r = subprocess.run([build.exe('asmtool'), sp, '--out', outp], stdout=subprocess.PIPE, stderr=subprocess.PIPE, env=driver.san_env(), cwd=scratch, timeout=60)
+        r = subprocess.run([build.exe('asmtool'), sp, '--out', outp], stdout=subprocess.PIPE, stderr=subprocess.PIPE, env=driver.san_env(), cwd=scratch, timeout=20)
     except subprocess.TimeoutExpired:
-        return 'hang: the assembler did not finish within 60 s'
+        return 'hang: the assembler did not finish within 20 s'
     if r.returncode != 0:
         err = r.stderr.decode(errors='replace')
         if 'stack-overflow' in err and not plain_crashes(open(sp, 'rb').read()):
@@ -60,9 +60,9 @@ def accept_check(text, scratch):
             return 'emit: accepted but the header word does not fit the file'
     exe_out = os.path.join(scratch, 'e.bin')
     try:
-        p = subprocess.run([toolchain.tool('hexasm'), sp, '-o', exe_out], stdout=subprocess.PIPE, stderr=subprocess.PIPE, cwd=scratch, timeout=60)
+        p = subprocess.run([toolchain.tool('hexasm'), sp, '-o', exe_out], stdout=subprocess.PIPE, stderr=subprocess.PIPE, cwd=scratch, timeout=20)
     except subprocess.TimeoutExpired:
-        return 'hang: hexasm did not finish within 60 s'
+        return 'hang: hexasm did not finish within 20 s'
     if p.returncode not in (0, 1):
         return 'crash: the hexasm executable died with status %d' % p.returncode
     if (p.returncode == 0) != o['ok']:
